@@ -140,7 +140,8 @@ class NodeWalk:
 _CACHE: Dict[tuple, List[NodeWalk]] = {}
 
 
-def walks(p: Project, unroll: int = 2) -> List[NodeWalk]:
+def walks(p: Project, unroll: int = None) -> List[NodeWalk]:
+    unroll = unroll if unroll is not None else paths.DEFAULT_UNROLL
     cache = p.__dict__.setdefault('_nodewalk_cache', {})
     key = unroll
     if key not in cache:
